@@ -52,6 +52,45 @@ CLAIMED = {
              "Correspondence is sampled differential testing. Axioms: propext, Classical.choice, Quot.sound.",
         technique="Lean 4 invariant proof over unbounded histories + differential correspondence on the real framing code",
         ref="DESIGN.md §5 C01"),
+    "C07": dict(
+        text="Lean 4 proofs on the framing model for an ARBITRARY arrived byte stream in arbitrary segmentation: the "
+             "receive buffer never exceeds one maximum-size frame and no mbuf.h assertion can fire (C07_bounded_buffer), "
+             "the delivered messages are a prefix of the reference decoding of the stream (the well-formed frames before "
+             "the first malformed header), each of legal length 1..65535 (C07_reference_decoder), an illegal length "
+             "(0 or >max) yields EPROTO which is sticky for every later call (C07_illegal_length_eproto, "
+             "C07_eproto_sticky). Tie: real xcm_tp_tcp.c/xcm_tp_tls.c under ASan+UBSan vs the model on hostile streams "
+             "(len 0/65536/2^31/2^32-1, truncated, random, plain text) in four segmentations, plus a reference-decoder "
+             "monitor on the implementation's output.",
+        note="Garbage before/during the TLS handshake (OpenSSL + xcm_tp_btls.c) is not inside this model. C memory "
+             "safety itself is only covered by the model's explicit abort outcome and the sanitizer runs of the "
+             "correspondence (sampled). Axioms: propext, Classical.choice, Quot.sound.",
+        technique="Lean 4 invariant proof (arbitrary byte stream) + differential correspondence under ASan/UBSan",
+        ref="DESIGN.md §5 C07"),
+    "C03": dict(
+        text="Lean 4 proofs on the framing model: size checks come first and change nothing in any state "
+             "(C03_size_checks_first), a send failing with EAGAIN leaves exactly the state a finish call would have "
+             "produced, independent of the message (C03_eagain_is_finish), a bad connection refuses without effect, and "
+             "for all histories of both ends the i-th delivered message is the i-th message whose send returned 0 — so a "
+             "failed send is never delivered and none is duplicated (C03_only_accepted_delivered_once, from "
+             "C01_exact_delivery). Tie: unit_framing correspondence with send-focused generation (sizes 0,1,max,max+1,"
+             "far larger; refusal before acceptance, between acceptance and flush, after k bytes) and a wire monitor.",
+        note="The blocking wrapper in xcm.c (poll() interrupted by a signal between acceptance and flush, defect "
+             "candidate F-03a) and the ux transport are not yet inside the model or this check; 'exactly once' is the "
+             "safety half (at most once, in order) — eventual delivery is C04. Lower-layer failure is assumed terminal.",
+        technique="Lean 4 proofs (state equalities, corollary of the delivery theorem) + differential correspondence",
+        ref="DESIGN.md §5 C03"),
+    "C17": dict(
+        text="Lean 4 proofs on the framing model, for every history: no step decreases any of the eight counters "
+             "(C17_monotone); to_app = number of successful receives and bytes they really returned (truncation "
+             "counted as delivered), from_lower = complete messages taken from below, from_app = messages buffered by "
+             "send, to_lower = from_app minus the frame still buffered (C17_counters_exact); from_app>=to_lower and "
+             "from_lower>=to_app (C17_order); refused sends count nothing (C17_refused_counts_nothing); flushed sender "
+             "and fully-read receiver agree (C17_idle_agreement). Tie: the counters (via the transport's get_cnt op) are "
+             "part of every compared output line of unit_framing on tcp and tls.",
+        note="Counters of ux/uxf, btcp/btls (byte counters) and utls delegation are not yet in the model. Sampled "
+             "correspondence. Axioms: propext, Classical.choice, Quot.sound.",
+        technique="Lean 4 invariant proofs over unbounded histories + differential correspondence",
+        ref="DESIGN.md §5 C17"),
 }
 
 PENDING_REASON = "not yet built in this round: no check is claimed for it (the design in DESIGN.md §5 stands; " \
